@@ -35,6 +35,7 @@ monitors! {
     "C03" => c03,
     "C04" => c04,
     "C05" => c05,
+    "C06" => c06,
     "C07" => c07,
     "C08" => c08,
     "C09" => c09,
